@@ -7,6 +7,7 @@ import (
 	"sort"
 
 	"gopkg.in/src-d/hercules.v10/internal/burndown"
+	"gopkg.in/src-d/hercules.v10/internal/rbtree"
 )
 
 // Read-only accessors for the C08 (fork isolation) harness.  They never modify the analysis.
@@ -139,4 +140,15 @@ func (analyser *BurndownAnalysis) VerifC08FileHistoryNames() []string {
 	}
 	sort.Strings(names)
 	return names
+}
+
+// VerifC08HibernatedFileName returns the path of the file that holds the serialized arena of this copy
+// ("" when the copy is not hibernated on disk).
+func (analyser *BurndownAnalysis) VerifC08HibernatedFileName() string {
+	return analyser.hibernatedFileName
+}
+
+// VerifC08Allocator returns the node arena of this copy (for the read-only hooks of package rbtree only).
+func (analyser *BurndownAnalysis) VerifC08Allocator() *rbtree.Allocator {
+	return analyser.fileAllocator
 }
